@@ -444,6 +444,9 @@ def run(ctx, verdict):
                         "missing / late A record, thousands of I records, lines beyond 64 KiB): totality, whole fixes, error kind only",
                         "round trip: positions in units of 1/6000000 degree (seeded tracks: plus millionths of a unit), tolerance "
                         "1/60000 degree + 1 unit; fractional altitudes accept either neighbouring integer; decreasing times and "
-                        "positions outside the domain: totality only; header texts are compared only through the first six "
-                        "characters of DTE values (round trip) or for files rendered by the driver (line level)",
+                        "positions outside the domain: totality of Read only (nothing is demanded of the encoder there); altitudes "
+                        "outside 0..10000 may come back clamped to 10000 or to 99999, negative ones as 0; the date headers a writer "
+                        "emits are not judged; line level: one header per H record with a colon, key and value (source and key "
+                        "compared), other H records may be returned, skipped or reported as errors; counts and instants are judged "
+                        "only for files whose fixes, dated by the latest date header, never go backwards (no day roll-over inference)",
                         "an empty non-nil igc.Errors is not distinguished from nil (the statement does not say which)"]
